@@ -283,6 +283,9 @@ type SnapshotStore interface {
 	// SetDueNext sets the type of snapshot due next.
 	SetDueNext(snapshot.Type) error
 
+	// LatestIndexTerm returns the index and term of the newest snapshot.
+	LatestIndexTerm() (uint64, uint64, error)
+
 	// Stats returns stats about the Snapshot Store.
 	Stats() (map[string]any, error)
 
@@ -3174,7 +3177,7 @@ func (s *Store) createSnapshotFingerprint() error {
 	// the snapshot store. Both callers guarantee that: a local snapshot has been
 	// finalised in the store before its Finalizer runs, and a restore installs
 	// the newest snapshot.
-	li, tm, err := snapshot.LatestIndexTerm(s.snapshotDir)
+	li, tm, err := s.snapshotStore.LatestIndexTerm()
 	if err != nil {
 		return fmt.Errorf("failed to get latest snapshot index for snapshot finalizer: %s", err)
 	}
